@@ -314,3 +314,583 @@ Proof.
   destruct S4 as (_ & _ & _ & _ & _ & S46 & _).
   rewrite S46, Hcmn in R. change (c_ext cn) with (c_ext c) in R. rewrite Hflag, Haf in R. exact R.
 Qed.
+
+(* ################################################################## C07: a stream of messages, each judged by itself
+   (the usage: read to the end; on ErrInvalidUTF8 Discard; NextFrame).  The Reader that checks runs in lock
+   step with the one that does not ([simR]); in addition its UTF8Reader state is tracked ([TU], [TW]): for a
+   text message it is the DFA state of the bytes handed out so far, so by Utf8Proofs.dfa_correct /
+   dfa_reject_dead the Reader reports ErrInvalidUTF8 exactly for the text messages whose bytes are not valid
+   UTF-8; after Discard (section 7) or io.EOF it stands at the next message, at rest. *)
+(* ================================================================== 8. what the UTF8Reader of the checking Reader knows *)
+(* [acc] = the bytes of the current message handed out so far.  A text message: the DFA
+   state is that of [acc] and not yet the reject state; any other message: the state is 0 *)
+Definition TU (r : reader) (acc : list byte) : Prop :=
+  if r_opcode r =? 1 then r_u8state r = u8_run 0 acc /\ r_u8state r <> 12 else r_u8state r = 0.
+(* an open frame goes through the UTF8Reader exactly when the message is text *)
+Definition TW (r : reader) : Prop := r_frame r = true -> r_u8wrap r = (r_opcode r =? 1).
+
+Lemma check_header_cont h s : check_header h s = None -> st_fragmented s = true ->
+  op_is_control (h_op h) = false -> h_op h = 0.
+Proof.
+  intros H Hf Hc. destruct (h_op h =? 0) eqn:E0; [apply N.eqb_eq in E0; exact E0|]. exfalso.
+  unfold check_header in H. rewrite Hf, Hc, E0 in H. cbn [andb negb] in H.
+  repeat match type of H with (if ?c then _ else _) = None => destruct c; [discriminate H|] end.
+  discriminate H.
+Qed.
+
+Lemma unset_bits_op h c h' c' : unset_bits h c = Some (h', c') -> h_op h' = h_op h.
+Proof.
+  unfold unset_bits. destruct (op_is_data (h_op h) && negb (h_op h =? 0)).
+  - intros H. injection H as <- _. reflexivity.
+  - destruct (negb (N.land (h_rsv h) 4 =? 0)); [discriminate|]. intros H. injection H as <- _. reflexivity.
+Qed.
+
+Lemma next_frame_T r acc h r1 : r_skip r = false -> r_check_utf8 r = true ->
+  TU r acc -> TW r -> r_frame r = false ->
+  (st_fragmented (r_state r) = false -> r_u8state r = 0 /\ acc = []) ->
+  next_frame r = ((h, None), r1) ->
+  TU r1 acc /\ TW r1 /\ (st_fragmented (r_state r) = true -> r_opcode r1 = r_opcode r) /\
+  (st_fragmented (r_state r) = false -> r_opcode r1 = h_op h) /\
+  (r_frame r1 = true \/ st_fragmented (r_state r1) = true).
+Proof.
+  destruct r as [s st sk ch mx ex cm cb op fr rn mk ky cp uw us ua lg]. unfold TU, TW. rsimpl.
+  intros -> -> HU HW -> H0 H. unfold next_frame, cb_read_all, raw_drain in H. rsimpl. cbv zeta in H.
+  destruct (reader_read_header s) as [[e0|hdr] s1]; [discriminate H|].
+  destruct (check_header hdr st) eqn:Hck; [discriminate H|].
+  destruct ((0 <? mx)%Z && (mx <? h_len hdr)%Z); [discriminate H|].
+  destruct (if ex then unset_bits hdr cm else Some (hdr, cm)) as [[hdr' comp']|] eqn:Hx; [|discriminate H].
+  assert (Hop': h_op hdr' = h_op hdr).
+  { destruct ex; [exact (unset_bits_op _ _ _ _ Hx)|]. injection Hx as <- _. reflexivity. }
+  destruct (st_fragmented st) eqn:Hfrag; cbn [andb] in H.
+  - destruct (op_is_control (h_op hdr')) eqn:Hctl.
+    + assert (G: forall (r2 : reader), r_opcode r2 = op -> r_frame r2 = false -> r_u8state r2 = us ->
+                 r_state r2 = st ->
+                 (if r_opcode r2 =? 1 then r_u8state r2 = u8_run 0 acc /\ r_u8state r2 <> 12 else r_u8state r2 = 0) /\
+                 (r_frame r2 = true -> r_u8wrap r2 = (r_opcode r2 =? 1)) /\
+                 (true = true -> r_opcode r2 = op) /\ (true = false -> r_opcode r2 = h_op h) /\
+                 (r_frame r2 = true \/ st_fragmented (r_state r2) = true)).
+      { intros r2 E1 E2 E3 E4. rewrite E1, E2, E3, E4. split; [exact HU|]. split; [intros X; discriminate X|].
+        split; [reflexivity|]. split; [intros X; discriminate X|]. right. exact Hfrag. }
+      destruct cb; rsimpl.
+      * destruct (read_full _ _) as [[b0 e0] s2]. destruct e0 as [[| |]|]; cbn [option_map] in H; try discriminate H.
+        injection H as _ <-. apply G; reflexivity.
+      * destruct (read_full _ _) as [[b0 e0] s2]. destruct e0 as [[| |]|]; try discriminate H.
+        rsimpl. destruct (read_full _ _) as [[b1 e1] s3]. destruct e1 as [[| |]|]; cbn [option_map] in H; try discriminate H.
+        injection H as _ <-. apply G; reflexivity.
+    + injection H as _ <-. rsimpl.
+      split; [exact HU|]. split.
+      { intros _. rewrite Hop' in Hctl |- *. rewrite (check_header_cont hdr st Hck Hfrag Hctl). cbn [andb orb N.eqb]. reflexivity. }
+      split; [reflexivity|]. split; [intros X; discriminate X|]. left. reflexivity.
+  - injection H as <- <-. rsimpl. destruct (H0 eq_refl) as [-> ->].
+    split. { destruct (h_op hdr' =? 1); [split; [reflexivity|discriminate]|reflexivity]. }
+    split. { intros _. cbn [andb]. rewrite orb_false_r. reflexivity. }
+    split; [intros X; discriminate X|]. split; [reflexivity|]. left. reflexivity.
+Qed.
+
+Lemma frame_read_chk k r : r_check_utf8 (snd (frame_read k r)) = r_check_utf8 r.
+Proof.
+  unfold frame_read, raw_read. destruct (r_rawN r =? 0); [|destruct (read1 _ _) as [[b0 e0] s1]];
+    cbv beta iota zeta; rsimpl; (destruct (r_u8wrap r); [destruct (u8_scan _ _ _ _) as [[stt a] rej]; destruct rej|]); reflexivity.
+Qed.
+
+Lemma rat_eof_data d r : r_check_utf8 r = false -> fst (fst (rat_eof d r)) = d.
+Proof.
+  intros H. unfold rat_eof. rewrite H. cbn [andb].
+  destruct (negb (r_rawN r =? 0)); [reflexivity|]. destruct (st_fragmented (r_state r)); reflexivity.
+Qed.
+
+Lemma frame_read_T k r q acc : simR r q -> TU r acc -> TW r -> r_frame r = true -> wf_bytes acc ->
+  wf_bytes (fst (fst (frame_read k q))) ->
+  simR (snd (frame_read k r)) (snd (frame_read k q)) /\
+  r_opcode (snd (frame_read k r)) = r_opcode r /\ r_frame (snd (frame_read k r)) = true /\
+  ((snd (fst (frame_read k r)) = Some RInvalidUtf8 /\ r_opcode r = 1 /\
+    u8_run 0 (acc ++ fst (fst (frame_read k q))) = 12) \/
+   (fst (frame_read k r) = fst (frame_read k q) /\
+    TU (snd (frame_read k r)) (acc ++ fst (fst (frame_read k q))) /\ TW (snd (frame_read k r)))).
+Proof.
+  intros H HU HW Hfr Hwa. simR_open H. unfold TU, TW in *. rsimpl. subst. specialize (HW eq_refl). subst.
+  unfold frame_read, raw_read; rsimpl.
+  assert (Hin0: In (u8_run 0 acc) states) by (apply run_states; [exact Hwa|simpl; tauto]).
+  (destruct (_ =? 0); [|destruct (read1 _ _) as [[b0 e0] s1]]); cbv beta iota zeta; rsimpl;
+  (destruct (_ =? 1) eqn:Eop;
+   [ destruct HU as [HU1 HU2]; intros Hwd;
+     match goal with |- context [u8_scan ?u 0 0 ?x] =>
+       pose proof (scan_spec x u 0 0 Hwd ltac:(rewrite HU1; exact Hin0) HU2) as SS;
+       destruct (u8_scan u 0 0 x) as [[stt a] rej] end;
+     destruct rej; cbn [fst snd];
+     [ destruct SS as [SS _]; destruct (SS eq_refl) as [R1 R2];
+       split; [closeR|]; split; [reflexivity|]; split; [reflexivity|]; left;
+       split; [reflexivity|]; split; [apply N.eqb_eq, Eop|]; rewrite run_app, <- HU1; exact R1
+     | destruct SS as [_ SS]; destruct (SS eq_refl) as [R1 R2];
+       split; [closeR|]; split; [reflexivity|]; split; [reflexivity|]; right;
+       split; [reflexivity|]; rsimpl; rewrite Eop; split;
+       [split; [rewrite run_app, <- HU1; exact R1|exact R2]|intros _; reflexivity] ]
+   | intros Hwd; cbn [fst snd]; split; [closeR|]; split; [reflexivity|]; split; [reflexivity|]; right;
+     split; [reflexivity|]; rsimpl; rewrite Eop; split; [exact HU|intros _; reflexivity] ]).
+Qed.
+
+Lemma rat_eof_T d r q acc : simR r q -> TU r acc ->
+  (snd (fst (rat_eof d r)) = Some RInvalidUtf8 /\ simD (snd (rat_eof d r)) (snd (rat_eof d q)) /\
+     r_opcode r = 1 /\ snd (fst (rat_eof d q)) = Some (RIo EEOF) /\ u8_run 0 acc <> 0) \/
+  (fst (rat_eof d r) = fst (rat_eof d q) /\ simR (snd (rat_eof d r)) (snd (rat_eof d q)) /\
+     (snd (fst (rat_eof d r)) = None -> TU (snd (rat_eof d r)) acc /\ TW (snd (rat_eof d r)) /\
+         r_opcode (snd (rat_eof d r)) = r_opcode r /\ st_fragmented (r_state (snd (rat_eof d r))) = true) /\
+     (snd (fst (rat_eof d r)) = Some (RIo EEOF) -> r_opcode r = 1 -> u8_run 0 acc = 0)).
+Proof.
+  intros H HU. simR_open H. unfold rat_eof, TU, TW in *. rsimpl. cbn [andb]. rewrite ok_utf8_accept.
+  match goal with |- context [negb (?x =? 0)] => destruct (x =? 0) eqn:E0 end; cbn [negb].
+  2: { right. cbn [fst snd]. split; [reflexivity|]. split; [closeR|]. split; intros X; discriminate X. }
+  apply N.eqb_eq in E0. subst.
+  match goal with |- context [st_fragmented ?x] => destruct (st_fragmented x) eqn:Hfrag end.
+  - right. cbn [fst snd]. split; [reflexivity|]. split; [closeR|]. split; [|intros X; discriminate X].
+    intros _. rsimpl. split; [exact HU|]. split; [intros X; discriminate X|]. split; [reflexivity|exact Hfrag].
+  - match goal with |- context [negb (?u =? 0)] => destruct (u =? 0) eqn:Eus end; cbn [negb].
+    + right. cbn [fst snd]. split; [reflexivity|]. split; [closeR|]. split; [intros X; discriminate X|].
+      intros _ Hop1. rewrite Hop1 in HU. cbn [N.eqb Pos.eqb] in HU. destruct HU as [HU1 _].
+      apply N.eqb_eq in Eus. congruence.
+    + left. cbn [fst snd]. split; [reflexivity|]. split; [closeD|].
+      match type of HU with (if ?o =? 1 then _ else _) => destruct (o =? 1) eqn:Eop end.
+      * split; [apply N.eqb_eq, Eop|]. split; [reflexivity|]. destruct HU as [HU1 _]. rewrite <- HU1.
+        apply N.eqb_neq, Eus.
+      * exfalso. rewrite HU in Eus. discriminate Eus.
+Qed.
+
+Definition inv_case (X Y : (list byte * option rerror) * reader) (op : N) (acc : list byte) : Prop :=
+  snd (fst X) = Some RInvalidUtf8 /\ simD (snd X) (snd Y) /\ op = 1 /\
+  (u8_run 0 (acc ++ fst (fst Y)) = 12 \/ (snd (fst Y) = Some (RIo EEOF) /\ u8_run 0 (acc ++ fst (fst Y)) <> 0)).
+Definition eq_case (X Y : (list byte * option rerror) * reader) (op : N) (acc : list byte) : Prop :=
+  fst X = fst Y /\ simR (snd X) (snd Y) /\
+  (snd (fst X) = None -> TU (snd X) (acc ++ fst (fst Y)) /\ TW (snd X) /\ r_opcode (snd X) = op /\
+      (r_frame (snd X) = true \/ st_fragmented (r_state (snd X)) = true)) /\
+  (snd (fst X) = Some (RIo EEOF) -> op = 1 -> u8_run 0 (acc ++ fst (fst Y)) = 0).
+
+Lemma rgo_T k r rn acc : simR r rn -> TU r acc -> TW r -> r_frame r = true -> wf_bytes acc ->
+  wf_bytes (fst (fst (rgo k rn))) ->
+  inv_case (rgo k r) (rgo k rn) (r_opcode r) acc \/ eq_case (rgo k r) (rgo k rn) (r_opcode r) acc.
+Proof.
+  intros H HU HW Hfr Hwa. unfold inv_case, eq_case, rgo.
+  pose proof (frame_read_T k r rn acc H HU HW Hfr Hwa) as F.
+  assert (Hc2: r_check_utf8 (snd (frame_read k rn)) = false).
+  { rewrite frame_read_chk. destruct H as [H _]. apply H. }
+  destruct (frame_read k r) as [[data e] r2]. destruct (frame_read k rn) as [[data' e'] r2n]. cbn [fst snd] in F, Hc2.
+  assert (Hd: fst (fst (match e' with
+                         | Some (RIo EEOF) => rat_eof data' r2n
+                         | Some e0 => ((data', Some e0), r2n)
+                         | None => if negb (r_rawN r2n =? 0) then ((data', None), r2n) else rat_eof data' r2n
+                         end)) = data').
+  { destruct e' as [e'|].
+    - destruct e' as [[| |]| | | | | | | |]; try reflexivity. apply rat_eof_data, Hc2.
+    - destruct (negb (r_rawN r2n =? 0)); [reflexivity|apply rat_eof_data, Hc2]. }
+  rewrite !Hd. intros Hwd. specialize (F Hwd).
+  destruct F as (S & Hop2 & Hfr2 & [(Ee & Hop1 & H12)|(Efst & HU2 & HW2)]).
+  - subst e. left. cbn [fst snd]. split; [reflexivity|]. split; [|split; [exact Hop1|left; exact H12]].
+    apply simR_D in S. destruct e' as [e'|].
+    + destruct e' as [[| |]| | | | | | | |]; cbn [snd]; try exact S. apply rat_eof_simD, S.
+    + destruct (negb (r_rawN r2n =? 0)); cbn [snd]; [exact S|apply rat_eof_simD, S].
+  - injection Efst as -> ->.
+    pose proof (rat_eof_T data' r2 r2n (acc ++ data') S HU2) as A.
+    assert (AA: (snd (fst (rat_eof data' r2)) = Some RInvalidUtf8 /\ simD (snd (rat_eof data' r2)) (snd (rat_eof data' r2n)) /\
+                 r_opcode r = 1 /\ (u8_run 0 (acc ++ data') = 12 \/
+                   snd (fst (rat_eof data' r2n)) = Some (RIo EEOF) /\ u8_run 0 (acc ++ data') <> 0)) \/
+                (fst (rat_eof data' r2) = fst (rat_eof data' r2n) /\ simR (snd (rat_eof data' r2)) (snd (rat_eof data' r2n)) /\
+                 (snd (fst (rat_eof data' r2)) = None -> TU (snd (rat_eof data' r2)) (acc ++ data') /\ TW (snd (rat_eof data' r2)) /\
+                    r_opcode (snd (rat_eof data' r2)) = r_opcode r /\
+                    (r_frame (snd (rat_eof data' r2)) = true \/ st_fragmented (r_state (snd (rat_eof data' r2))) = true)) /\
+                 (snd (fst (rat_eof data' r2)) = Some (RIo EEOF) -> r_opcode r = 1 -> u8_run 0 (acc ++ data') = 0))).
+    { destruct A as [(A1 & A2 & A3 & A4 & A5)|(A1 & A2 & A3 & A4)].
+      - left. split; [exact A1|]. split; [exact A2|]. split; [congruence|]. right. split; [exact A4|exact A5].
+      - right. split; [exact A1|]. split; [exact A2|]. split.
+        + intros X. destruct (A3 X) as (B1 & B2 & B3 & B4). split; [exact B1|]. split; [exact B2|]. split; [congruence|right; exact B4].
+        + intros X Y. apply A4; [exact X|congruence]. }
+    destruct (simD_fields _ _ (simR_D _ _ S)) as (_ & _ & Hrn).
+    assert (Triv: forall e0, e0 <> RIo EEOF ->
+       ((data', Some e0, r2) = (data', Some e0, r2) -> True) ->
+       fst (data', Some e0, r2) = fst (data', Some e0, r2n) /\ simR r2 r2n /\
+       (Some e0 = None -> TU r2 (acc ++ data') /\ TW r2 /\ r_opcode r2 = r_opcode r /\
+          (r_frame r2 = true \/ st_fragmented (r_state r2) = true)) /\
+       (Some e0 = Some (RIo EEOF) -> r_opcode r = 1 -> u8_run 0 (acc ++ data') = 0)).
+    { intros e0 Hne _. split; [reflexivity|]. split; [exact S|]. split; [intros X; discriminate X|].
+      intros X. injection X as X. contradiction. }
+    destruct e' as [e'|].
+    + destruct e' as [[| |]| | | | | | | |]; cbn [fst snd]; try (right; apply Triv; [discriminate|trivial]).
+      exact AA.
+    + rewrite Hrn. destruct (negb (r_rawN r2n =? 0)); [|exact AA].
+      right. cbn [fst snd]. split; [reflexivity|]. split; [exact S|]. split; [|intros X; discriminate X].
+      intros _. split; [exact HU2|]. split; [exact HW2|]. split; [exact Hop2|left; exact Hfr2].
+Qed.
+
+Lemma frame_read_skip k r : r_skip (snd (frame_read k r)) = r_skip r.
+Proof.
+  unfold frame_read, raw_read. destruct (r_rawN r =? 0); [|destruct (read1 _ _) as [[b0 e0] s1]];
+    cbv beta iota zeta; rsimpl; (destruct (r_u8wrap r); [destruct (u8_scan _ _ _ _) as [[stt a] rej]; destruct rej|]); reflexivity.
+Qed.
+Lemma rat_eof_skip d r : r_skip (snd (rat_eof d r)) = r_skip r.
+Proof.
+  unfold rat_eof. destruct (negb (r_rawN r =? 0)); [reflexivity|]. destruct (st_fragmented (r_state r)); [reflexivity|].
+  destruct (r_check_utf8 r && negb (r_u8state r =? utf8_accept)); reflexivity.
+Qed.
+Lemma rgo_skip k r : r_skip (snd (rgo k r)) = r_skip r.
+Proof.
+  unfold rgo. pose proof (frame_read_skip k r) as F. destruct (frame_read k r) as [[data e] r2]. cbn [snd] in F.
+  destruct e as [e|].
+  - destruct e as [[| |]| | | | | | | |]; cbn [snd]; try exact F. rewrite rat_eof_skip. exact F.
+  - destruct (negb (r_rawN r2 =? 0)); cbn [snd]; [exact F|]. rewrite rat_eof_skip. exact F.
+Qed.
+Lemma next_frame_skip r : r_skip (snd (next_frame r)) = r_skip r.
+Proof.
+  unfold next_frame, cb_read_all, raw_drain.
+  destruct (reader_read_header (r_src r)) as [[e|hdr] s1]; [reflexivity|].
+  destruct (if r_skip r then None else check_header hdr (r_state r)); [reflexivity|].
+  destruct ((0 <? r_max r)%Z && (r_max r <? h_len hdr)%Z); [reflexivity|].
+  destruct (if r_ext r then unset_bits hdr (r_compressed r) else Some (hdr, r_compressed r)) as [[hdr' comp']|];
+    [|reflexivity].
+  destruct (st_fragmented (r_state r) && op_is_control (h_op hdr')); [|reflexivity].
+  destruct (r_cb r); rsimpl.
+  - destruct (read_full (Z.to_N (h_len hdr)) s1) as [[b e] s2]. destruct e as [[| |]|]; reflexivity.
+  - destruct (read_full (Z.to_N (h_len hdr)) s1) as [[b e] s2]. destruct e as [[| |]|]; try reflexivity.
+    rsimpl. destruct (read_full (Z.to_N (h_len hdr) - len b) s2) as [[b2 e2] s3].
+    destruct e2 as [[| |]|]; reflexivity.
+Qed.
+Lemma reader_read_skip k r : r_skip (snd (reader_read k r)) = r_skip r.
+Proof.
+  rewrite reader_read_eq. destruct (r_frame r); [apply rgo_skip|].
+  destruct (negb (st_fragmented (r_state r))); [reflexivity|].
+  pose proof (next_frame_skip r) as F. destruct (next_frame r) as [[h e] r1]. cbn [snd] in F.
+  destruct e as [e|]; [exact F|]. destruct (r_frame r1); [rewrite rgo_skip; exact F|exact F].
+Qed.
+
+Lemma reader_read_T k r rn acc : simR r rn -> r_skip r = false -> TU r acc -> TW r -> wf_bytes acc ->
+  (r_frame r = true \/ st_fragmented (r_state r) = true) ->
+  wf_bytes (fst (fst (reader_read k rn))) ->
+  inv_case (reader_read k r) (reader_read k rn) (r_opcode r) acc \/
+  eq_case (reader_read k r) (reader_read k rn) (r_opcode r) acc.
+Proof.
+  intros H Hskip HU HW Hwa Hopen. rewrite !reader_read_eq. destruct (simR_fields _ _ H) as (Hst & Hfr).
+  assert (Hchk: r_check_utf8 r = true) by (destruct H as [H _]; apply H).
+  destruct (r_frame r) eqn:Efr; rewrite <- Hfr.
+  - apply rgo_T; assumption.
+  - destruct Hopen as [X|Hfrag]; [discriminate X|].
+    rewrite <- Hst, Hfrag. cbn [negb].
+    destruct (next_frame_simR r rn H) as [E S].
+    destruct (next_frame r) as [[h e] r1] eqn:Hnf. destruct (next_frame rn) as [[h' e'] r1n].
+    cbn [fst snd] in E, S. injection E as <- <-.
+    destruct e as [e|].
+    + intros _. right. unfold eq_case. cbn [fst snd]. split; [reflexivity|]. split; [exact S|].
+      split; [intros X; discriminate X|]. intros X. injection X as ->.
+      exfalso. exact (next_frame_frag_not_eof r h _ r1 Hfrag Hnf eq_refl).
+    + destruct (next_frame_T r acc h r1 Hskip Hchk HU HW Efr ltac:(intros X; congruence) Hnf)
+        as (HU1 & HW1 & Hop1 & _ & Hopen1).
+      specialize (Hop1 Hfrag). destruct (simR_fields _ _ S) as (_ & Hfr1).
+      destruct (r_frame r1) eqn:Efr1; rewrite <- Hfr1.
+      * rewrite <- Hop1. apply rgo_T; assumption.
+      * intros _. right. unfold eq_case. cbn [fst snd]. rewrite app_nil_r.
+        split; [reflexivity|]. split; [exact S|]. split; [|intros X; discriminate X].
+        intros _. split; [exact HU1|]. split; [exact HW1|]. split; [exact Hop1|rewrite Efr1; exact Hopen1].
+Qed.
+
+Lemma rte_prefix : forall fuel bufs all r racc,
+  exists x, fst (fst (read_to_eof fuel bufs all r racc)) = concat (rev_append racc []) ++ x.
+Proof.
+  induction fuel as [|fuel IH]; intros bufs all r racc; cbn [read_to_eof].
+  - exists []. rewrite app_nil_r. reflexivity.
+  - destruct (next_buf bufs all) as [k bufs']. destruct (reader_read k r) as [[d e] r1].
+    destruct e as [e|].
+    + exists d. cbn [fst]. apply concat_rev_cons.
+    + destruct (IH bufs' all r1 (d :: racc)) as (x & Hx). exists (d ++ x). rewrite Hx, concat_rev_cons, app_assoc. reflexivity.
+Qed.
+
+(* reading one message to its end: in lock step with the Reader that does not check, up to
+   the first ErrInvalidUTF8; io.EOF for a text message only if the bytes are valid UTF-8;
+   ErrInvalidUTF8 only for a text message whose bytes are not *)
+Section Lock.
+Variable Q : reader -> Prop.
+Hypothesis HQ : forall k rn, 0 < k -> Q rn -> Q (snd (reader_read k rn)).
+
+Lemma rte_lock : forall fuel bufs all r rn racc,
+  simR r rn -> r_skip r = false -> TU r (concat (rev_append racc [])) -> TW r ->
+  (r_frame r = true \/ st_fragmented (r_state r) = true) -> Q rn ->
+  wf_bytes (fst (fst (read_to_eof fuel bufs all rn racc))) ->
+  let X := read_to_eof fuel bufs all r racc in let Y := read_to_eof fuel bufs all rn racc in
+  (fst X = fst Y /\ simR (snd X) (snd Y) /\
+     (snd (fst Y) = RIo EEOF -> r_opcode r = 1 -> valid_utf8 (fst (fst Y)) = true)) \/
+  (exists rnm, snd (fst X) = RInvalidUtf8 /\ simD (snd X) rnm /\ Q rnm /\ r_opcode r = 1 /\
+     (snd (fst Y) = RIo EEOF -> valid_utf8 (fst (fst Y)) = false)).
+Proof.
+  induction fuel as [|fuel IH]; intros bufs all r rn racc H Hskip HU HW Hopen HQ0 Hwp; cbn [read_to_eof] in *.
+  { left. cbn [fst snd]. split; [reflexivity|]. split; [exact H|]. intros X; discriminate X. }
+  pose proof (next_buf_pos bufs all) as Hk. destruct (next_buf bufs all) as [k bufs']. cbn [fst] in Hk.
+  set (acc := concat (rev_append racc [])) in *.
+  assert (Hpre: exists x, fst (fst (let '(d, e, r1) := reader_read k rn in
+                   match e with Some e0 => (concat (rev_append (d :: racc) []), e0, r1)
+                   | None => read_to_eof fuel bufs' all r1 (d :: racc) end)) = (acc ++ fst (fst (reader_read k rn))) ++ x).
+  { destruct (reader_read k rn) as [[dn en] r1n]. cbn [fst]. destruct en as [en|].
+    - exists []. cbn [fst]. rewrite app_nil_r. apply concat_rev_cons.
+    - destruct (rte_prefix fuel bufs' all r1n (dn :: racc)) as (x & Hx). exists x. rewrite Hx, concat_rev_cons. reflexivity. }
+  destruct Hpre as (x & Hpre). rewrite Hpre in Hwp.
+  apply wf_bytes_app in Hwp. destruct Hwp as [Hw1 Hwx]. apply wf_bytes_app in Hw1. destruct Hw1 as [Hwa Hwd].
+  pose proof (HQ k rn Hk HQ0) as HQ1.
+  destruct (reader_read_T k r rn acc H Hskip HU HW Hwa Hopen Hwd) as [(I1 & I2 & I3 & I4)|(E1 & E2 & E3 & E4)].
+  - (* the first ErrInvalidUTF8 *)
+    right. exists (snd (reader_read k rn)).
+    destruct (reader_read k r) as [[d e] r1]. destruct (reader_read k rn) as [[dn en] r1n].
+    cbn [fst snd] in *. subst e. cbn [fst snd]. split; [reflexivity|]. split; [exact I2|]. split; [exact HQ1|].
+    split; [exact I3|]. intros Hy.
+    assert (Hwhole: wf_bytes ((acc ++ dn) ++ x)) by (apply wf_bytes_app; split; [apply wf_bytes_app; split; assumption|exact Hwx]).
+    rewrite Hpre. destruct I4 as [I4|[I4 I5]].
+    + apply dfa_reject_dead; [apply wf_bytes_app; split; assumption|exact Hwx|exact I4].
+    + subst en. cbn [fst snd] in Hpre. rewrite concat_rev_cons in Hpre. fold acc in Hpre.
+      assert (x = []) by (apply (app_inv_head (acc ++ dn)); rewrite app_nil_r; symmetry; exact Hpre). subst x.
+      rewrite app_nil_r in *. rewrite <- dfa_correct by exact Hwhole. apply N.eqb_neq, I5.
+  - destruct (reader_read k r) as [[d e] r1] eqn:Er. destruct (reader_read k rn) as [[dn en] r1n].
+    cbn [fst snd] in *. injection E1 as <- <-.
+    destruct e as [e|].
+    + left. cbn [fst snd]. split; [reflexivity|]. split; [exact E2|]. intros -> Hop.
+      rewrite concat_rev_cons. fold acc. cbn [fst snd] in Hpre. rewrite concat_rev_cons in Hpre. fold acc in Hpre.
+      rewrite <- dfa_correct by (apply wf_bytes_app; split; assumption). apply N.eqb_eq, E4; [reflexivity|exact Hop].
+    + destruct (E3 eq_refl) as (HU1 & HW1 & Hop1 & Hopen1).
+      assert (Hskip1: r_skip r1 = false).
+      { pose proof (reader_read_skip k r) as Sk. rewrite Er in Sk. cbn [snd] in Sk. congruence. }
+      cbn [fst snd] in Hpre.
+      assert (Hwp1: wf_bytes (fst (fst (read_to_eof fuel bufs' all r1n (d :: racc))))).
+      { rewrite Hpre. apply wf_bytes_app; split; [apply wf_bytes_app; split; assumption|exact Hwx]. }
+      unfold acc in HU1. rewrite <- concat_rev_cons in HU1.
+      destruct (IH bufs' all r1 r1n (d :: racc) E2 Hskip1 HU1 HW1 Hopen1 HQ1 Hwp1) as [(A1 & A2 & A3)|(rnm & A1 & A2 & A3 & A4 & A5)].
+      * left. split; [exact A1|]. split; [exact A2|]. rewrite Hop1 in A3. exact A3.
+      * right. exists rnm. split; [exact A1|]. split; [exact A2|]. split; [exact A3|]. split; [congruence|exact A5].
+Qed.
+End Lock.
+
+(* ================================================================== 9. the spec: frame index and accumulated events do not matter *)
+Lemma spec_k c : forall fs k k' openm evs,
+  sr_events (spec_run c k openm evs fs) = sr_events (spec_run c k' openm evs fs) /\
+  (sr_out (spec_run c k openm evs fs) = OClean -> sr_out (spec_run c k' openm evs fs) = OClean).
+Proof.
+  induction fs as [|f fs IH]; intros k k' openm evs.
+  - rewrite !spec_run_nil. split; [reflexivity|intros X; exact X].
+  - rewrite !spec_run_cons.
+    destruct (negb (frame_ok c (is_some openm) f)); [split; [reflexivity|intros X; discriminate X]|].
+    destruct ((0 <? c_max c)%Z && (c_max c <? Z.of_N (len (sf_payload f)))%Z); [split; [reflexivity|intros X; discriminate X]|].
+    destruct (c_ext c && rsv1 f && negb (first_data f)); [split; [reflexivity|intros X; discriminate X]|].
+    destruct (spec_control (sf_op f)); [apply IH|].
+    unfold spec_data. destruct (msg_of c openm f) as [[o p] cm].
+    destruct (wrap_of c o && negb (if sf_fin f then valid_utf8 (p ++ sf_payload f) else utf8_viable (p ++ sf_payload f)));
+      [split; [reflexivity|intros X; exact X]|].
+    destruct (sf_fin f); apply IH.
+Qed.
+
+Definition ev_wf (e : event) : Prop := wf_bytes (ev_payload e).
+Lemma spec_wf c : forall fs k openm evs, Forall wf_sframe fs -> wf_bytes (partial_of openm) -> Forall ev_wf evs ->
+  Forall ev_wf (sr_events (spec_run c k openm evs fs)).
+Proof.
+  induction fs as [|f fs IH]; intros k openm evs Hfs Hp Hevs.
+  - rewrite spec_run_nil. exact Hevs.
+  - pose proof (Forall_inv Hfs) as (_ & _ & Hwp & _). pose proof (Forall_inv_tail Hfs) as Hfs'.
+    rewrite spec_run_cons.
+    destruct (negb (frame_ok c (is_some openm) f)); [exact Hevs|].
+    destruct ((0 <? c_max c)%Z && (c_max c <? Z.of_N (len (sf_payload f)))%Z); [exact Hevs|].
+    destruct (c_ext c && rsv1 f && negb (first_data f)); [exact Hevs|].
+    destruct (spec_control (sf_op f)).
+    + apply IH; [exact Hfs'|exact Hp|]. apply Forall_app. split; [exact Hevs|]. constructor; [exact Hwp|constructor].
+    + unfold spec_data.
+      assert (Hm: wf_bytes (m_acc (msg_of c openm f))).
+      { destruct openm as [[[o p] cm]|]; cbn [msg_of m_acc fst snd partial_of] in *; [exact Hp|constructor]. }
+      destruct (msg_of c openm f) as [[o p] cm]. cbn [m_acc fst snd] in Hm.
+      assert (Hacc: wf_bytes (p ++ sf_payload f)) by (apply wf_bytes_app; split; assumption).
+      destruct (wrap_of c o && negb (if sf_fin f then valid_utf8 (p ++ sf_payload f) else utf8_viable (p ++ sf_payload f)));
+        [exact Hevs|].
+      destruct (sf_fin f).
+      * apply IH; [exact Hfs'|constructor|]. apply Forall_app. split; [exact Hevs|]. constructor; [exact Hacc|constructor].
+      * apply IH; [exact Hfs'|exact Hacc|exact Hevs].
+Qed.
+
+Lemma filter_all_inter mid : all_inter mid -> filter (fun e => negb (ev_inter e)) mid = [].
+Proof. induction 1 as [|e l He _ IH]; [reflexivity|]. cbn [filter]. rewrite He. exact IH. Qed.
+
+(* ================================================================== 10. the Reader with CheckUTF8 switched off *)
+Definition unchk (r : reader) : reader :=
+  mkR (r_src r) (r_state r) (r_skip r) false (r_max r) (r_ext r) (r_compressed r) (r_cb r)
+      (r_opcode r) (r_frame r) (r_rawN r) (r_masked r) (r_key r) (r_cpos r) (r_u8wrap r) (r_u8state r) (r_u8acc r) (r_log r).
+
+Lemma unchk_sim c lg fs r : c_check_utf8 c = true -> Bnd c None lg fs r -> at_rest r ->
+  simR r (unchk r) /\ Bnd (no_utf8 c) None lg fs (unchk r).
+Proof.
+  intros Hchk [Hcfg Hsrc Hwf Hlog Hst Hnoext Hmsg] Hrest.
+  destruct (at_rest_fields r Hrest) as (_ & _ & _ & Hw & _). destruct Hcfg as (C1 & C2 & C3 & C4 & C5). split.
+  - unfold simR, simD, unchk; rsimpl. repeat split; try reflexivity; [congruence|exact Hw].
+  - constructor; unfold unchk; rsimpl; cbn [is_some] in *; try assumption.
+    unfold cfg_ok; rsimpl. cbn [no_utf8 c_state c_check_utf8 c_max c_ext]. repeat split; assumption.
+Qed.
+
+Lemma bnd_rewire c lg t t' r : Bnd c None lg t r -> wire t = wire t' -> Forall wf_sframe t' -> Bnd c None lg t' r.
+Proof.
+  intros [Hcfg Hsrc Hwf Hlog Hst Hnoext Hmsg] Hw Hf. constructor; try assumption.
+  unfold src_ok in *. rewrite <- Hw. exact Hsrc.
+Qed.
+
+(* one Read keeps the invariant of ReaderFreshProofs.reads_then_discard *)
+Lemma pinv_step c target cm : wf_cfg c -> forall kk r, 0 < kk -> PInv c target cm r ->
+  PInv c target cm (snd (reader_read kk r)).
+Proof.
+  intros Hc kk r Hkk HP.
+  destruct HP as [(st & lg & rest & k & evs & Hinv & Hraw & Hpos & Hcl & Hnctl & Hcm)|(lg & HB & Hrest & Hcm)].
+  - destruct (read_stepP c st lg rest r kk Hc Hinv Hkk)
+      as [(d & r' & st' & mid & rest' & Hr & Hinv' & Hopq & Hcmq & _ & _ & Hpos' & Hraw' & Hsp)
+         |[(d & r' & Hr & HB & Hcp & _)|(d & err & r' & Hr & _ & Hsp)]]; rewrite Hr; cbn [snd].
+    + left. destruct (Hsp k evs) as (k' & Heq).
+      exists st', (lg ++ mid), rest', k', (evs ++ mid).
+      split; [exact Hinv'|]. split; [exact Hraw'|]. split; [congruence|]. split; [rewrite <- Heq; exact Hcl|].
+      split; congruence.
+    + right. exists lg. rewrite <- Hpos.
+      split; [exact HB|]. split; [exact (read_eof_at_rest _ _ _ _ Hr)|].
+      destruct Hcp as [Hcp|Hcp]; congruence.
+    + exfalso. apply (Hsp k evs), Hcl.
+  - destruct (at_rest_fields r Hrest) as (_ & Hfr & _). pose proof Hrest as [_ Hnf].
+    rewrite reader_read_eq, Hfr, Hnf. cbn [negb snd]. right. exists lg. split; [exact HB|split; [exact Hrest|exact Hcm]].
+Qed.
+
+Lemma pinv_discard c target cm r : wf_cfg c -> PInv c target cm r ->
+  exists r3 lg, discard (S (length (flat (r_src r)))) r = (None, r3) /\ Bnd c None lg target r3 /\ at_rest r3.
+Proof.
+  intros Hc HP. destruct (reads_then_discard c target cm Hc [] r HP) as (outs & r3 & Hrun & Hlen & lg & HB & Hrest & _).
+  destruct outs; [|discriminate Hlen]. cbn [map app run_script] in Hrun.
+  destruct (discard (S (length (flat (r_src r)))) r) as [e r3']. injection Hrun as -> ->.
+  exists r3, lg. split; [reflexivity|]. split; assumption.
+Qed.
+
+(* ================================================================== 11. one message of the stream *)
+Lemma judge_step c bufs : wf_cfg c -> c_check_utf8 c = true -> forall fuel f ftl lg r,
+  Bnd c None lg (f :: ftl) r -> at_rest r ->
+  sr_out (spec_run (no_utf8 c) 0 None [] (f :: ftl)) = OClean ->
+  (length (wire (f :: ftl)) <= fuel)%nat ->
+  exists h r1 p comp mid rest' k' lg' r3,
+    next_frame r = ((h, None), r1) /\ h_op h = sf_op f /\ all_inter mid /\
+    spec_run (no_utf8 c) 0 None [] (f :: ftl) =
+      spec_run (no_utf8 c) k' None (mid ++ [mkEv (sf_op f) p false comp]) rest' /\
+    (length (wire rest') + 2 <= length (wire (f :: ftl)))%nat /\
+    Bnd c None lg' rest' r3 /\ at_rest r3 /\
+    ((verdict_of c (mkEv (sf_op f) p false comp) = VOk (sf_op f) p /\
+      read_to_eof fuel bufs bufs r1 [] = ((p, RIo EEOF), r3)) \/
+     (verdict_of c (mkEv (sf_op f) p false comp) = VInvalid /\
+      exists d r2, read_to_eof fuel bufs bufs r1 [] = ((d, RInvalidUtf8), r2) /\
+                   discard (S (length (flat (r_src r2)))) r2 = (None, r3))).
+Proof.
+  intros Hc Hchk fuel f ftl lg r HB Hrest Hclean Hfuel.
+  set (cn := no_utf8 c) in *. pose proof (wf_cfg_no_utf8 c Hc) as Hcn. fold cn in Hcn.
+  destruct (unchk_sim c lg (f :: ftl) r Hchk HB Hrest) as [S0 HBn]. fold cn in HBn. set (rn := unchk r) in *.
+  destruct (next_frame_spec cn None lg f ftl rn Hcn HBn) as (hn & e & r1n & Hnfn & Hsp).
+  destruct e as [err|].
+  { exfalso. destruct Hsp as (_ & Hsp). destruct (Hsp 0%nat []) as (out & Heq & _ & _ & Hnc).
+    rewrite Heq in Hclean. apply Hnc, Hclean. }
+  destruct Hsp as (Hlen & [(m0 & Hm0 & _)|(Hop & HM & Hspd)]); [discriminate|].
+  destruct (next_frame_simR r rn S0) as [E1 S1]. rewrite Hnfn in E1, S1.
+  destruct (next_frame r) as [[h e0] r1] eqn:Hnf. cbn [fst snd] in E1, S1. injection E1 as <- ->.
+  set (st := MMid (msg_of cn None f) f [] (sf_payload f)).
+  pose proof (b_src _ _ _ _ _ HBn) as (_ & _ & Hfln).
+  assert (Hmu: (mu r1n < fuel)%nat).
+  { unfold mu. rewrite (m_frame _ _ _ _ _ _ _ _ HM). rewrite Hfln in Hlen. clear -Hlen Hfuel. lia. }
+  assert (Hcl: sr_out (mspec cn 0 st [] ftl) = OClean) by (cbn [mspec st]; rewrite <- Hspd; exact Hclean).
+  destruct (read_to_eof_specS cn Hcn fuel st lg ftl r1n bufs bufs [] HM eq_refl Hmu) as (p & e & r2n & Hrte & Hres).
+  destruct Hres as [(-> & mid & rest' & HB2n & Hcp & Hle & Hmid & Hspe)|(Hne & Hnc)].
+  2: { exfalso. apply (Hnc 0%nat []). exact Hcl. }
+  destruct (Hspe 0%nat []) as (k' & Heq). cbn [mspec st mmsg msg_of m_op m_comp fst snd app] in Heq. rewrite <- Hspd in Heq.
+  set (comp := c_ext cn && rsv1 f) in *.
+  assert (Hwp: wf_bytes p).
+  { pose proof (spec_wf cn (f :: ftl) 0%nat None [] (b_wf _ _ _ _ _ HBn) ltac:(constructor) ltac:(constructor)) as W.
+    rewrite Heq, spec_run_evs_pre in W. cbn [pre_evs sr_events] in W.
+    apply Forall_app in W. destruct W as [W _]. apply Forall_app in W. destruct W as [_ W]. exact (Forall_inv W). }
+  (* the UTF8Reader of r1 *)
+  destruct (at_rest_fields r Hrest) as (Hop0 & Hfr0 & _ & _ & Hus0 & _). pose proof Hrest as [_ Hnfrag].
+  pose proof (b_cfg _ _ _ _ _ HB) as (Hskip & Hchkr & _).
+  assert (HU0: TU r []) by (unfold TU; rewrite Hop0; exact Hus0).
+  assert (HW0: TW r) by (unfold TW; rewrite Hfr0; intros X; discriminate X).
+  destruct (next_frame_T r [] h r1 Hskip ltac:(congruence) HU0 HW0 Hfr0 ltac:(intros _; split; [exact Hus0|reflexivity]) Hnf)
+    as (HU1 & HW1 & _ & Hopc1 & Hopen1).
+  specialize (Hopc1 Hnfrag). rewrite Hop in Hopc1.
+  assert (Hskip1: r_skip r1 = false).
+  { pose proof (next_frame_skip r) as X. rewrite Hnf in X. cbn [snd] in X. congruence. }
+  (* lock step *)
+  set (target := st_rest st ftl).
+  set (Q := fun x : reader => spec_control (sf_op f) = false -> PInv cn target comp x).
+  assert (HQ: forall k x, 0 < k -> Q x -> Q (snd (reader_read k x))).
+  { intros k x Hk Hx Hn. apply pinv_step; [exact Hcn|exact Hk|exact (Hx Hn)]. }
+  assert (HQ1: Q r1n).
+  { intros Hnctl. left. exists st, lg, ftl, 0%nat, [].
+    split; [exact HM|]. split; [intros m X; discriminate X|]. split; [reflexivity|]. split; [exact Hcl|].
+    split; [exact Hnctl|reflexivity]. }
+  pose proof (rte_lock Q HQ fuel bufs bufs r1 r1n [] S1 Hskip1 HU1 HW1 Hopen1 HQ1) as L.
+  rewrite Hrte in L. cbn [fst snd] in L. specialize (L Hwp). cbv zeta in L.
+  assert (Hlen2: (length (wire rest') + 2 <= length (wire (f :: ftl)))%nat).
+  { pose proof (b_src _ _ _ _ _ HB2n) as (_ & _ & Hf2). rewrite <- Hf2. rewrite Hfln in Hlen. clear -Hlen Hle. lia. }
+  destruct L as [(A1 & A2 & A3)|(rnm & A1 & A2 & A3 & A4 & A5)].
+  - (* delivered *)
+    destruct (read_to_eof fuel bufs bufs r1 []) as [[p1 e1] r2] eqn:Hr. cbn [fst snd] in A1, A2. injection A1 as -> ->.
+    pose proof (read_to_eof_at_rest _ _ _ _ _ _ _ Hr) as Hrest2.
+    pose proof (bnd_transfer c _ _ r2 r2n Hchk HB2n (simR_D _ _ A2) Hrest2) as HB2.
+    exists h, r1, p, comp, mid, rest', k', (lg ++ mid), r2.
+    split; [reflexivity|]. split; [exact Hop|]. split; [exact Hmid|]. split; [exact Heq|]. split; [exact Hlen2|].
+    split; [exact HB2|]. split; [exact Hrest2|]. left. split; [|exact Hr].
+    unfold verdict_of. cbn [ev_op ev_payload]. rewrite Hchk. cbn [andb].
+    destruct (sf_op f =? 1) eqn:E1; [|reflexivity]. apply N.eqb_eq in E1.
+    rewrite (A3 eq_refl ltac:(congruence)). reflexivity.
+  - (* ErrInvalidUTF8, then Discard *)
+    assert (Hop1: sf_op f = 1) by congruence.
+    assert (Hnctl: spec_control (sf_op f) = false) by (rewrite Hop1; reflexivity).
+    destruct (pinv_discard cn target comp rnm Hcn (A3 Hnctl)) as (r3n & lgD & HD & HB3n & Hrest3n).
+    destruct (read_to_eof fuel bufs bufs r1 []) as [[d e1] r2] eqn:Hr. cbn [fst snd] in A1, A2. subst e1.
+    destruct (simD_fields _ _ A2) as (Hsrc & _).
+    destruct (discard_simD (S (length (flat (r_src rnm)))) r2 rnm A2) as [E4 S4]. rewrite HD in E4, S4. cbn [fst snd] in E4, S4.
+    destruct (discard (S (length (flat (r_src rnm)))) r2) as [eD r3] eqn:HD2. cbn [fst snd] in E4, S4. subst eD.
+    pose proof (discard_at_rest _ _ _ HD2) as Hrest3.
+    (* where Discard lands = where reading to the end lands *)
+    destruct (read_to_eofP cn Hcn fuel st lg ftl r1n bufs bufs [] 0%nat [] HM Hmu Hcl) as (p' & r2' & mid' & Hrte' & HBt & _).
+    rewrite Hrte in Hrte'. injection Hrte' as _ <-.
+    pose proof (b_src _ _ _ _ _ HBt) as (_ & _ & Hft). pose proof (b_src _ _ _ _ _ HB2n) as (_ & _ & Hf2).
+    fold target in Hft.
+    pose proof (bnd_rewire cn lgD target rest' r3n HB3n ltac:(congruence) (b_wf _ _ _ _ _ HB2n)) as HB3n'.
+    pose proof (bnd_transfer c _ _ r3 r3n Hchk HB3n' S4 Hrest3) as HB3.
+    exists h, r1, p, comp, mid, rest', k', lgD, r3.
+    split; [reflexivity|]. split; [exact Hop|]. split; [exact Hmid|]. split; [exact Heq|]. split; [exact Hlen2|].
+    split; [exact HB3|]. split; [exact Hrest3|]. right. split.
+    + unfold verdict_of. cbn [ev_op ev_payload]. rewrite Hchk, Hop1, (A5 eq_refl). reflexivity.
+    + exists d, r2. split; [exact Hr|]. rewrite Hsrc. exact HD2.
+Qed.
+
+(* ================================================================== 12. C07: every message of a stream judged by itself *)
+Lemma judge_stream_bnd c bufs : wf_cfg c -> c_check_utf8 c = true -> forall fuel fs lg r,
+  Bnd c None lg fs r -> at_rest r -> sr_out (spec_run (no_utf8 c) 0 None [] fs) = OClean ->
+  (length (wire fs) + 1 <= fuel)%nat ->
+  judge_stream fuel bufs r = (map (verdict_of c) (messages_of c fs), RIo EEOF).
+Proof.
+  intros Hc Hchk. unfold messages_of. set (cn := no_utf8 c).
+  induction fuel as [|fuel IH]; intros fs lg r HB Hrest Hclean Hfuel; [lia|].
+  destruct fs as [|f ftl].
+  - destruct (next_frame_eof c None lg r HB) as (h & r' & Hnf & _). cbn [is_some] in Hnf.
+    cbn [judge_stream]. rewrite Hnf. rewrite spec_run_nil. reflexivity.
+  - destruct (judge_step c bufs Hc Hchk (S fuel) f ftl lg r HB Hrest Hclean ltac:(lia))
+      as (h & r1 & p & comp & mid & rest' & k' & lg' & r3 & Hnf & Hop & Hmid & Heq & Hlen & HB3 & Hrest3 & Hv).
+    fold cn in Heq.
+    assert (Hcl': sr_out (spec_run cn 0 None [] rest') = OClean).
+    { apply (proj2 (spec_k cn rest' k' 0%nat None [])).
+      rewrite Heq, spec_run_evs_pre in Hclean. exact Hclean. }
+    assert (Hev: filter (fun e => negb (ev_inter e)) (sr_events (spec_run cn 0 None [] (f :: ftl))) =
+                 mkEv (sf_op f) p false comp :: filter (fun e => negb (ev_inter e)) (sr_events (spec_run cn 0 None [] rest'))).
+    { rewrite Heq, spec_run_evs_pre. cbn [pre_evs sr_events]. rewrite !filter_app, (filter_all_inter _ Hmid).
+      cbn [filter ev_inter negb app]. rewrite (proj1 (spec_k cn rest' k' 0%nat None [])). reflexivity. }
+    specialize (IH rest' lg' r3 HB3 Hrest3 Hcl' ltac:(lia)).
+    cbn [judge_stream]. rewrite Hnf, Hev. cbn [map].
+    destruct Hv as [(Hv & Hr)|(Hv & d & r2 & Hr & HD)]; rewrite Hr, Hv.
+    + rewrite IH, Hop. reflexivity.
+    + rewrite HD, IH. reflexivity.
+Qed.
+
+Theorem stream_of_messages_each_judged : forall c fs s bufs fuel,
+  wf_cfg c -> c_check_utf8 c = true -> Forall wf_sframe fs -> wire_ok c fs ->
+  wf_src s -> tl s = TEOF -> flat s = wire fs -> (length (wire fs) + 1 <= fuel)%nat ->
+  judge_stream fuel bufs (new_reader s (c_state c) false (c_check_utf8 c) (c_max c) (c_ext c) CbReadAll)
+  = (map (verdict_of c) (messages_of c fs), RIo EEOF).
+Proof.
+  intros c fs s bufs fuel Hc Hchk Hfs Hok Hw Ht Hfl Hfuel.
+  apply (judge_stream_bnd c bufs Hc Hchk fuel fs []); [apply new_reader_bnd; assumption| |exact Hok|exact Hfuel].
+  split; [reflexivity|]. cbn [new_reader r_state].
+  rewrite <- (set_frag_init _ Hc). apply st_frag_set.
+Qed.
